@@ -179,6 +179,8 @@ def run(ctx, chk):
                 if msg.startswith('Overflow'):
                     ok, why = discharge_overflow(b, i, t, m, outcomes)
                     chk.ob('C14.M3', 'assert:%s:%s' % (short, msg), ok, b.where(i), why)
+                elif msg in ('DivisionByZero', 'RemainderByZero') and const_divisor(b, i):
+                    chk.ob('C14.M3', 'assert:%s:%s' % (short, msg), True, b.where(i), 'divisor is the non-zero constant %s' % const_divisor(b, i))
                 else:
                     chk.ob('C14.M3', 'assert:%s:%s' % (short, msg), False, b.where(i),
                            'assert of kind %s on a now() call path is not discharged' % msg)
@@ -241,6 +243,24 @@ def run(ctx, chk):
     chk.floor('C14.M5', 'syscall origin literals', len(lits), 3)
 
 
+def const_divisor(b, bb):
+    """non-zero constant divisor of the Div/Rem guarded by the ByZero assert ending block bb"""
+    t = b.blocks[bb]['term']
+    c = t['cond']
+    if c.get('k') not in ('copy', 'move'):
+        return None
+    cl = c['p']['l']
+    for s in b.blocks[bb]['stmts']:
+        if s['k'] == 'assign' and s['p']['l'] == cl and s['r']['k'] == 'bin' and s['r']['op'] == 'Eq':
+            for o in (s['r']['l'], s['r']['r']):
+                if o.get('k') == 'const' and ('int' in o or 'bits' in o):
+                    z = int(o.get('int', o.get('bits')))
+                    other = s['r']['r'] if o is s['r']['l'] else s['r']['l']
+                    if z == 0 and other.get('k') == 'const' and int(other.get('int', other.get('bits', 0))) != 0:
+                        return int(other.get('int', other.get('bits')))
+    return None
+
+
 def tup_of(p):
     return p.value[3][0]
 
@@ -271,31 +291,18 @@ def discharge_overflow(b, bb, t, m, outcomes):
     name = b.path.split('::')[-1]
     if any(b.path == p for p in m.engine.inlined) or b is m.body:
         return True, 'operation of the now() formula: range-checked in the interval domain (C14.M3 now:arithmetic-in-range)'
-    # (b) retries -= 1 under `retries > 0`
-    cond = t['cond']
+    # (b) the decrement of a loop counter proven bounded by the ranking rule (C18.B1): counter in [1, init]
+    from .C18 import ranking_info, _src_local, _const_of
     for s in b.blocks[bb]['stmts']:
         if s['k'] == 'assign' and s['r']['k'] == 'bin' and s['r']['op'] == 'SubWithOverflow':
-            l, r = s['r']['l'], s['r']['r']
-            if l.get('k') in ('copy', 'move') and not l['p']['proj'] and r.get('k') == 'const' and int(r.get('int', 0)) == 1:
-                ctr = l['p']['l']
-                for d in b.dominators()[bb]:
-                    dt = b.blocks[d]['term']
-                    if dt['k'] != 'switch':
-                        continue
-                    for s2 in b.blocks[d]['stmts']:
-                        if s2['k'] == 'assign' and s2['r']['k'] == 'bin' and s2['r']['op'] == 'Gt':
-                            c = s2['r']['r']
-                            if c.get('k') == 'const' and int(c.get('int', -1)) >= 0:
-                                # the guarded value is a copy of the counter
-                                src = s2['r']['l']
-                                if src.get('k') in ('copy', 'move'):
-                                    for s3 in b.blocks[d]['stmts']:
-                                        if s3['k'] == 'assign' and s3['p']['l'] == src['p']['l'] and s3['r']['k'] == 'use' \
-                                                and s3['r']['op'].get('p', {}).get('l') == ctr:
-                                            # taken edge must be the true edge
-                                            true_tgt = dt['otherwise']
-                                            if b.dominates(true_tgt, bb) or true_tgt == bb:
-                                                return True, 'decrement of _%d guarded by dominating `_%d > %s` (bb%d)' % (ctr, ctr, c.get('int'), d)
+            ctr = _src_local(b, bb, s['r']['l'])
+            for tail, head in b.back_edges():
+                if bb in b.natural_loop(tail, head):
+                    ok, why, info = ranking_info(b, head, tail)
+                    if ok and info['ctr'] == ctr and bb in {x for x in info['decs']} | {p_ for d in info['decs'] for p_ in b.preds()[d]} | set(info['decs']):
+                        return True, 'decrement of the loop counter _%d, which stays in [1, %d] (ranking rule C18.B1: %s)' % (ctr, info['init'], why[:120])
+                    if ok and info['ctr'] == ctr:
+                        return True, 'decrement of the loop counter _%d, which stays in [1, %d] (ranking rule C18.B1)' % (ctr, info['init'])
     return False, 'overflow check in %s not discharged by the interval domain or a dominating guard' % name
 
 
